@@ -20,7 +20,8 @@ RULE = ('exhaustive unit-weight digraphs n<=3 x all source sets x {plain, transp
         'float/bool/int/uint8; structured random graphs n<=14 (half with unsorted indices, a third transposed); one long '
         'path / cycle / grid with 20-30 nodes (thorough: 30-44); degenerate shapes (0x0, 2x0, 0x2, duplicate entries that cancel); bipartite '
         'routing: every 0/1 biadjacency of the small shapes x {source, source_row} x source_col x transpose x '
-        'force_bipartite in {False, True} (both on square shapes); a malformed stream (out-of-range sources on either side, '
+        'force_bipartite in {False, True} (both on square shapes); random weighted / unsorted biadjacency matrices up to 7x7, a long '
+        'bipartite path, weights cancelling over a frontier, duplicate entries on both routes; a malformed stream (out-of-range sources on either side, '
         'source together with source_row, no source) compared by exception class; get_dag orders drawn from [-3, n+2], '
         'scaled, all-negative and all-equal vectors. A get_distances / get_shortest_path case is non-trivial when the graph '
         'has an edge and some node is at distance >= 1 (resp. the DAG has an edge); a bfs / get_dag case when the graph has an '
@@ -358,6 +359,22 @@ def build_cases(ctx):
             b = graphs.unsorted_copy(b, rng)
         cases += cases_for_bigraph(ctx, b, rng, full=False)
         ctx.count('bipartite:random')
+    # weights that cancel when summed over a frontier (+w and -w towards the same node): the loop must test reachability,
+    # not a weighted sum — on the plain and on the bipartite route, with every node of one side as source
+    for _ in range(6 if quick else 60):
+        nr, nc = rng.randint(2, 4), rng.randint(2, 4)
+        es = [(i, j) for i in range(nr) for j in range(nc) if rng.random() < 0.7]
+        w = [rng.choice([1, -1, 2, -2]) for _ in es]
+        b = _mk(nr, es, w, m=nc)
+        g = enc_csr(b)
+        gd = {'shape': [nr, nc], 'indptr': b.indptr.tolist(), 'indices': b.indices.tolist(), 'data': b.data.tolist(), 'dtype': str(b.dtype)}
+        _bi_case(ctx, b, g, gd, None, list(range(nc)), False, False, False, cases)
+        _bi_case(ctx, b, g, gd, list(range(nr)), None, False, False, True, cases)
+        n = rng.randint(3, 5)
+        es = [(i, j) for i in range(n) for j in range(n) if i != j and rng.random() < 0.6]
+        a = _mk(n, es, [rng.choice([1, -1, 2, -2]) for _ in es])
+        cases += cases_for_graph(ctx, a, rng, [list(range(n - 1)), [0, 1]], full=False, transposes=True)
+        ctx.count('cancelling-weights')
     k = rng.randint(8, 12) if quick else rng.randint(14, 20)
     es = [(i, i) for i in range(k)] + [(i + 1, i) for i in range(k - 1)]      # row i - col i - row i+1 - ... : a path of 2k nodes
     bp = _mk(k, es, [rng.choice([1, 2, -1, 0.5]) for _ in es], m=k)
